@@ -22,10 +22,11 @@ m = {"version": 1, "setup_cmd": "./setup.sh",
                "source_commits": hooks_commits, "add_only": True},
      "engines": [], "checks": [], "not_applicable": [],
      "notes": "Per-property driver: ./check Cxx --tier quick|thorough.  Technique: machine-checked proof in Coq 8.16.1 over executable Gallina models, tied to /repo by translators and differential correspondence.  See DESIGN.md."}
+accepted = json.load(open(os.path.join(V, "checks/manifest/accepted.json")))
 eng = {}
 for pr in props:
     i = pr["id"]
-    if i in frags and os.path.exists(os.path.join(V, "checks", i + ".py")):
+    if i in frags and i in accepted and os.path.exists(os.path.join(V, "checks", i + ".py")):
         c = frags[i]
         eng.setdefault(c["engine"], []).append(i)
         m["checks"].append({"property_id": i, "quick_cmd": "./check %s --tier quick" % i,
